@@ -96,6 +96,7 @@ struct AdfList * adfGetDelEnt ( struct AdfVolume * const vol )
             }
 
             if ( adfReadGenBlock ( vol, i, block ) != RC_OK ) {
+                free ( block );     /* the scratch record is not in the list */
                 adfFreeDelList ( head );
                 return NULL;
             }
@@ -109,10 +110,16 @@ struct AdfList * adfGetDelEnt ( struct AdfVolume * const vol )
                 else
                     list = newCell(list, (void*)block);
             }
+            else if ( block->name != NULL ) {
+                /* a link block: the scratch record is reused, its name is not kept */
+                free ( block->name );
+                block->name = NULL;
+            }
         }
     }
 
-    if (block!=NULL && list!=NULL && block!=list->content) {
+    /* the scratch record of the last free block looked at, unless it went into the list */
+    if ( block != NULL && ( list == NULL || block != list->content ) ) {
         free(block);
 /*        printf("%p\n",block);*/
     }
@@ -181,6 +188,7 @@ RETCODE adfCheckParent ( struct AdfVolume * vol,
     RETCODE rc = adfReadGenBlock ( vol, pSect, &block );
     if ( rc != RC_OK )
         return rc;
+    free ( block.name );    /* only the block type is looked at */
 
     if ( block.type!=T_HEADER 
         || (block.secType!=ST_DIR && block.secType!=ST_ROOT) ) {
